@@ -9,11 +9,13 @@ import (
 	"fmt"
 	"math/rand"
 	"os"
+	"os/exec"
 	"path/filepath"
 	"reflect"
 	"regexp"
 	"sort"
 	"strings"
+	"syscall"
 
 	oci "github.com/opencontainers/runtime-spec/specs-go"
 	"tags.cncf.io/container-device-interface/pkg/cdi"
@@ -23,6 +25,54 @@ import (
 func init() {
 	register("C02", checkC02)
 	register("C04", checkC04)
+	registerChild("c02nowatcher", childC02NoWatcher)
+}
+
+type c02Batch struct {
+	Dirs  []string `json:"dirs"`
+	Cases []struct {
+		Req []string  `json:"req"`
+		OCI *oci.Spec `json:"oci"`
+	} `json:"cases"`
+}
+
+// childC02NoWatcher: an auto-refresh cache created while no descriptor can be
+// opened has no watcher and rescans on every query. It injects every request
+// of the batch and prints the resulting OCI specs.
+func childC02NoWatcher(args []string) int {
+	data, err := os.ReadFile(args[0])
+	if err != nil {
+		return 2
+	}
+	var b c02Batch
+	if err := json.Unmarshal(data, &b); err != nil {
+		return 2
+	}
+	var lim, old syscall.Rlimit
+	syscall.Getrlimit(syscall.RLIMIT_NOFILE, &old)
+	lim = old
+	lim.Cur = 0
+	syscall.Setrlimit(syscall.RLIMIT_NOFILE, &lim)
+	cache, _ := cdi.NewCache(cdi.WithSpecDirs(b.Dirs...), cdi.WithAutoRefresh(true))
+	syscall.Setrlimit(syscall.RLIMIT_NOFILE, &old)
+	hasWatcher := false
+	entries, _ := os.ReadDir("/proc/self/fd")
+	for _, e := range entries {
+		if t, err := os.Readlink("/proc/self/fd/" + e.Name()); err == nil && strings.Contains(t, "inotify") {
+			hasWatcher = true
+		}
+	}
+	out := json.NewEncoder(os.Stdout)
+	out.Encode(map[string]any{"has_watcher": hasWatcher})
+	for _, cse := range b.Cases {
+		unres, err := cache.InjectDevices(cse.OCI, cse.Req...)
+		res := map[string]any{"oci": cse.OCI, "unresolved": unres}
+		if err != nil {
+			res["err"] = err.Error()
+		}
+		out.Encode(res)
+	}
+	return 0
 }
 
 var markerRe = regexp.MustCompile(`(?i)\bM_F(\d+)_(S|D\d+)_|/(?:mnt|hook|dev|host)/f(\d+)-(S|D\d+)`)
@@ -95,6 +145,50 @@ func checkC02(c *Ctx) {
 			return
 		}
 		rounds := 3 + r.Intn(4)
+		var nwReq [][]string
+		var nwInit []*oci.Spec
+		var nwWant []string
+		defer func() {
+			// one population in eight: the same requests through an auto-refresh cache
+			// that has no watcher (it rescans on every query), in a child process
+			if len(nwReq) == 0 || cs.R.Intn(8) != 0 {
+				return
+			}
+			var b c02Batch
+			b.Dirs = p.Conf
+			for i := range nwReq {
+				b.Cases = append(b.Cases, struct {
+					Req []string  `json:"req"`
+					OCI *oci.Spec `json:"oci"`
+				}{nwReq[i], nwInit[i]})
+			}
+			bf := filepath.Join(root, "batch.json")
+			data, _ := json.Marshal(b)
+			must(os.WriteFile(bf, data, 0o644))
+			exe, _ := os.Executable()
+			out, err := exec.Command(exe, "child-c02nowatcher", bf).Output()
+			lines := strings.Split(strings.TrimSpace(string(out)), "\n")
+			if err != nil || len(lines) != len(nwReq)+1 {
+				cs.Violation("no-watcher-child", nil, fmt.Sprintf("the process with a watcher-less auto-refresh cache failed: %v (%d lines)", err, len(lines)), nil)
+				return
+			}
+			if strings.Contains(lines[0], "true") {
+				c.Count("no_watcher_children_that_had_a_watcher", 1)
+				return
+			}
+			for i, line := range lines[1:] {
+				var res struct {
+					OCI *oci.Spec `json:"oci"`
+					Err string    `json:"err"`
+				}
+				json.Unmarshal([]byte(line), &res)
+				c.Count("injections_without_watcher", 1)
+				if res.Err != "" || normJSON(res.OCI) != nwWant[i] {
+					cs.Violation("composition", map[string]string{"mode": "auto-refresh without watcher"}, fmt.Sprintf("InjectDevices(%v) on an auto-refresh cache without a watcher (rescans on every query) differs from applying the combined edit list (err=%q)\n got  %s\n want %s", nwReq[i], res.Err, normJSON(res.OCI), nwWant[i]), map[string]any{"population": p.Describe(), "request": nwReq[i]})
+					return
+				}
+			}
+		}()
 		for round := 0; round < rounds; round++ {
 			k := 1 + r.Intn(len(devs))
 			if k > 6 {
@@ -196,11 +290,15 @@ func checkC02(c *Ctx) {
 			if round == 0 {
 				c.Sample(3, map[string]any{"configured_dirs": p.Conf, "request": req, "files_involved": len(met), "markers_found": found})
 			}
+			nwReq = append(nwReq, req)
+			nwInit = append(nwInit, cloneOCI(initial))
+			nwWant = append(nwWant, normJSON(want))
 		}
 	})
 	c.Floor("requests_spanning_2+_files", 50)
 	c.Floor("requests_with_2+_devices_of_one_file", 50)
 	c.Floor("injections_into_already_used_cache", 50)
+	c.Floor("injections_without_watcher", 50)
 }
 
 var c04BadNames = []string{"", "nodev", "vendor.com/gpu", "vendor.com/gpu=", "=x", "vendor.com/gpu=dev0 ", " vendor.com/gpu=dev0", "vendor.com/gpu=dev9", "nope.io/net=dev0", "a/b=c", "vendor.com/gpu=dev0,vendor.com/gpu=dev1", "VENDOR.COM/gpu=dev0", "vendor.com/gpu=dev0\x00", "vendor.com//gpu=dev0", "é/ü=ö"}
